@@ -38,13 +38,16 @@ theorem keypairStep_factors (table : List (Nat × List Nat)) (n : Nat)
     · simp only [Except.ok.injEq, Prod.mk.injEq] at h
       exact Or.inl h.2.symm
     · split at h
-      · cases h
+      · simp only [Except.ok.injEq, Prod.mk.injEq] at h
+        exact Or.inl h.2.symm
       · split at h
-        · rename_i seed _ hpq
-          simp only [Except.ok.injEq, Prod.mk.injEq] at h
-          exact Or.inr ⟨seed, bitLength n, h.2.symm, hpq⟩
-        · simp only [Except.ok.injEq, Prod.mk.injEq] at h
-          exact Or.inl h.2.symm
+        · cases h
+        · split at h
+          · rename_i seed _ hpq
+            simp only [Except.ok.injEq, Prod.mk.injEq] at h
+            exact Or.inr ⟨seed, bitLength n, h.2.symm, hpq⟩
+          · simp only [Except.ok.injEq, Prod.mk.injEq] at h
+            exact Or.inl h.2.symm
 
 theorem keypair_proper (ns : List Nat) (g : RsaGlobals) (o : KeyOracles) (k : RsaKey) (v : Verdict)
     (hgen : ∀ seed bits, 1 < (o.keypairGen seed bits).1 ∧ 1 < (o.keypairGen seed bits).2)
